@@ -177,6 +177,20 @@ def exprgrid():
             n += 1
 
 
+def symgrid():
+    """Symbol-relative memory operands in every spelling compilers print: N+sym[regs], -N+sym[regs], sym[regs+N], sym[regs-N],
+    N[regs] and N[regs+M] (outer and inner displacement), with one and two registers."""
+    n = 0
+    for regs in ('ebx', 'ebx+ecx*4', 'esi'):
+        for v in (4, 8, 129, 300):
+            for sp in ('%d+some_symbol[%s]' % (v, regs), '-%d+some_symbol[%s]' % (v, regs), 'some_symbol[%s+%d]' % (regs, v), 'some_symbol[%s-%d]' % (regs, v),
+                       '%d[%s]' % (v, regs), '-%d[%s]' % (v, regs), '%d[%s+%d]' % (v, regs, 2 * v), '-%d[%s+%d]' % (v, regs, 2 * v), '%d[%s-%d]' % (v, regs, 2 * v)):
+                for fmt, mn, shape in (('mov eax, DWORD PTR %s', 'mov', 'symgrid:r32,m32'), ('lea edx, %s', 'lea', 'symgrid:r32,m0'), ('add BYTE PTR %s, 1', 'add', 'symgrid:m8,i')):
+                    if (n // 3) % 3 == {'mov': 0, 'lea': 1, 'add': 2}[mn] or v == 4:
+                        yield n, fmt % sp, mn, shape, None
+                    n += 1
+
+
 def imm_class(v, width):
     if v is None:
         return '-'
@@ -206,6 +220,9 @@ def lines(tier, seed, part, nparts):
             for shape, ops, v in shapes(rng):
                 yield ('%s %s' % (mn, ops)).strip(), mn, shape, v
     for n, line, mn, shape, v in memgrid(tier):
+        if n % nparts == part:
+            yield line, mn, shape, v
+    for n, line, mn, shape, v in symgrid():
         if n % nparts == part:
             yield line, mn, shape, v
     for n, line, mn, shape, v in exprgrid():
